@@ -2,6 +2,7 @@ mod sched;
 mod model;
 mod driver;
 mod gen;
+mod ackrun;
 
 use std::io::{BufRead, BufWriter, Write};
 use std::time::Duration;
@@ -38,6 +39,32 @@ fn main() {
                     out.flush().unwrap();
                     let replay = serde_json::json!({"scenario": scenario, "schedule": outcome.schedule});
                     println!("HANG {}", replay);
+                    println!("SUMMARY {}", serde_json::Value::Array(summary));
+                    std::process::exit(3);
+                }
+            }
+            out.flush().unwrap();
+            println!("SUMMARY {}", serde_json::Value::Array(summary));
+        }
+        "ackrun" => {
+            let scenarios = arg_value(&args, "--scenarios").expect("--scenarios");
+            let out_path = arg_value(&args, "--out").expect("--out");
+            let timeout_ms: u64 = arg_value(&args, "--timeout-ms").map(|value| value.parse().unwrap()).unwrap_or(10_000);
+            std::panic::set_hook(Box::new(|_| {}));
+            let input = std::io::BufReader::new(std::fs::File::open(&scenarios).expect("open scenarios"));
+            let mut out = BufWriter::new(std::fs::File::create(&out_path).expect("create out"));
+            let mut summary = Vec::new();
+            let mut run_no = 0;
+            for line in input.lines() {
+                let line = line.unwrap();
+                if line.trim().is_empty() { continue; }
+                let scenario: ackrun::AckScenario = serde_json::from_str(&line).expect("ack scenario json");
+                run_no += 1;
+                let outcome = ackrun::run(&mut out, run_no, &scenario, Duration::from_millis(timeout_ms));
+                summary.push(serde_json::json!({"run": run_no, "name": scenario.name, "steps": outcome.steps, "hang": outcome.hang, "stuck": outcome.infeasible}));
+                if outcome.hang.is_some() {
+                    out.flush().unwrap();
+                    println!("HANG {}", serde_json::json!({"scenario": scenario, "schedule": outcome.schedule}));
                     println!("SUMMARY {}", serde_json::Value::Array(summary));
                     std::process::exit(3);
                 }
